@@ -425,6 +425,33 @@ class CallMixin:
                 if m == 'starts_with' and self.tyof(args[0]).kind == 'ptr':
                     o = self.hoist_pure(bt, obj)
                     return f'(cxx_rfind0_cstr({o}.p, {o}.n, {A(0)}) == 0)'
+        if fam == 'map':
+            name = self.ctype(bt)
+            for a in args:
+                if self.has_side_effects(a) and self.family(self.tyof(a)) != 'iter':
+                    if self.cond_depth:
+                        raise LoweringError('map key with side effects in a conditional operand')
+                    self.pre.append(f'(void)({self.ex(a)});')
+            if m in ('find', 'begin', 'cbegin', 'lower_bound'):
+                o = self.hoist_pure(T('ptr', sub=bt), addr(obj)) if not re.fullmatch(r'[\w.>\-()*&]+', obj) else addr(obj)
+                return f'(({o})->n ? &({o})->e[0] : &({o})->e[1])'
+            if m in ('end', 'cend'):
+                return f'(&({obj}).e[1])'
+            if m in ('count', 'contains', 'size'):
+                return f'({obj}).n'
+            if m == 'empty':
+                return f'(({obj}).n == 0)'
+            if m == 'clear':
+                return f'((void)(({obj}).n = 0))'
+            if m == 'erase' and len(args) == 1:
+                if self.family(self.tyof(args[0])) == 'iter':
+                    self.helpers.add('assert')
+                    return f'(({obj}).n = 0, &({obj}).e[1])'
+                return f'(({obj}).n ? (({obj}).n = 0, (uint64_t)1) : (uint64_t)0)'
+            if m == 'at' and len(args) == 1:
+                o = obj
+                self.maythrow_inline(f'!({o}).n', 'std::out_of_range')
+                return f'({o}).e[0].second'
         if fam == 'optional':
             if m == 'has_value':
                 return f'{obj}.has'
@@ -444,6 +471,13 @@ class CallMixin:
             if m == 'time_since_epoch':
                 return obj
         raise LoweringError(f'no model for {fam}::{m}/{len(args)} in {self.cur["name"]}')
+
+    def map_index(self, t, o, keynode):
+        if self.has_side_effects(keynode):
+            if self.cond_depth:
+                raise LoweringError('map key with side effects in a conditional operand')
+            self.pre.append(f'(void)({self.ex(keynode)});')
+        return f'(*{self.ctype(t)}_index({addr(o)}))'
 
     def maythrow_inline(self, cond, exc):
         from cxx2c import EXC
